@@ -19,6 +19,13 @@ What is enumerated (DESIGN.md section 7, C17; sensitivity classes of section 6):
                attach (sub-object), subset (set a parameter of the attached sub-object), watch (user
                watcher = bound method), watchfn (user watcher = module function), attr (ordinary
                attribute with mutable content)}
+  slotted model classes  SlotFirst(SlotMixin, Plain) (plain mixin declaring __slots__ BEFORE the Parameterized
+               base, plus a slot declared by the Parameterized subclass itself), SlotLast(Plain, SlotMixin) (mixin
+               AFTER), SlotDeep(SlotMixin2(SlotMixin), Plain) (slots of a plain base and of its plain base),
+               SlotSub(SlotFirst) (mixin deeper in the MRO); alphabets: pre {slot (fill every slot: lists and
+               strings), slotpart (fill one slot, the others stay unset), attr (__dict__ attribute), set, watch},
+               post {slot (grow / rebind / fill an unset slot), attr, set, mut}; the snapshot lists every slot of
+               the MRO (value or <unset>) next to the __dict__ attributes
   x copy mechanism {copy.deepcopy, pickle protocol 2, 3, 4, 5}
   x post-history applied afterwards, first to the copy and then to the original, over
                {set, mut, pedit, pmut, attach, subset, attr, const (assign the constant), watch}.
@@ -44,7 +51,18 @@ from bounded import c17_classes as K
 PRE = tuple(K.PRE_OPS)
 POST = tuple(K.POST_OPS)
 CLASSES = ("Plain", "Main")
+SLOT_CLASSES = tuple(K.SLOT_CLASSES)
+SLOT_PRE = tuple(K.SLOT_PRE_OPS)
+SLOT_POST = tuple(K.SLOT_POST_OPS)
 ALL_MECHS = K.MECHS
+
+
+def pre_alphabet(cname):
+    return SLOT_PRE if cname in SLOT_CLASSES else PRE
+
+
+def post_alphabet(cname):
+    return SLOT_POST if cname in SLOT_CLASSES else POST
 
 
 def histories(alphabet, maxlen):
@@ -87,7 +105,7 @@ def work(task):
     fails = []
     copy_failed = set()
     applicable = False
-    for post in histories(POST, maxpost):
+    for post in histories(post_alphabet(cname), maxpost):
         try:
             ref = K.reference(cname, pre, post)
         except Exception as e:
@@ -176,7 +194,12 @@ def plan(tier, seed):
                     tasks.append((cname, pre, 1, ALL_MECHS))
                     if len(set(pre)) == 3:
                         tasks.append((cname, pre, 2, ("deepcopy",)))
-        bound = ("2 model classes x pre-histories <= 3 over 9 operations x post-histories over 9 operations: <= 2 "
+        for cname in SLOT_CLASSES:
+            for pre in histories(SLOT_PRE, 3):
+                tasks.append((cname, pre, 2 if len(pre) <= 2 else 1, ALL_MECHS))
+        bound = ("4 slotted model classes x pre-histories <= 3 over 5 operations x post-histories (<= 2 for pre <= 2, "
+                 "<= 1 for pre = 3) over 4 operations x {deepcopy, pickle 2,3,4,5}; "
+                 "2 model classes x pre-histories <= 3 over 9 operations x post-histories over 9 operations: <= 2 "
                  "for pre <= 2 and <= 1 for pre = 3, with all of {deepcopy, pickle 2,3,4,5}; additionally deepcopy x "
                  "post-histories <= 2 for the pre-histories of 3 pairwise distinct operations; each post-history "
                  "applied to the copy and then to the original")
@@ -191,7 +214,14 @@ def plan(tier, seed):
                 if i % 16 == seed % 16:
                     tasks.append((cname, pre, 1, ("deepcopy", "pickle5")))
                     sampled = True
-        bound = ("2 model classes x {pre-histories <= 2 x post-histories <= 1 x {deepcopy, pickle 2,3,4,5}; "
+        for cname in SLOT_CLASSES:
+            for pre in histories(SLOT_PRE, 2):
+                tasks.append((cname, pre, 1, ("deepcopy", "pickle2", "pickle5")))
+                if len(pre) <= 1:
+                    tasks.append((cname, pre, 2, ("deepcopy", "pickle5")))
+        bound = ("4 slotted model classes x {pre-histories <= 2 x post-histories <= 1 x {deepcopy, pickle 2, 5}; "
+                 "pre-histories <= 1 x post-histories <= 2 x {deepcopy, pickle5}} over 5+4 operations (complete); "
+                 "2 model classes x {pre-histories <= 2 x post-histories <= 1 x {deepcopy, pickle 2,3,4,5}; "
                  "pre-histories <= 1 x post-histories <= 2 x {deepcopy, pickle5}} over 9+9 operations (complete), plus "
                  "a seed-chosen sixteenth of the pre-histories of length 3 x post-histories <= 1 x {deepcopy, "
                  "pickle5}; each post-history applied to the copy and then to the original")
@@ -206,7 +236,7 @@ def plan(tier, seed):
         regroup.setdefault((cname, pre, maxpost), []).append(m)
     out = [(cname, pre, maxpost, tuple(sorted(ms))) for (cname, pre, maxpost), ms in regroup.items()]
     # most expensive tasks first (better balance over the worker processes); deterministic order
-    out.sort(key=lambda t: (-(len(POST) ** t[2]) * len(t[3]), t[0], len(t[1]), t[1], t[3]))
+    out.sort(key=lambda t: (-(len(post_alphabet(t[0])) ** t[2]) * len(t[3]), t[0], len(t[1]), t[1], t[3]))
     return out, sampled, bound
 
 
@@ -214,7 +244,10 @@ def _run(tier, seed):
     tasks, sampled, bound = plan(tier, seed)
     B = Bounded(
         "C17",
-        rule=("one case = (model class, pre-history, copy mechanism, post-history); the post-history is applied to "
+        rule=("model classes: Plain / Main (parameters, dependencies, sub-object) and four slotted classes (ordinary "
+              "attributes in __slots__ declared by plain mixins before / after / deeper than the Parameterized base "
+              "and by the Parameterized subclass itself, next to __dict__ attributes); "
+              "one case = (model class, pre-history, copy mechanism, post-history); the post-history is applied to "
               "the copy and then to the original and both objects are compared after each phase with an object "
               "that was never copied (values, Parameter attributes, ordinary attributes, invocation logs, operation "
               "outcomes); histories that are not applicable (`subset` without a sub-object) are not counted; when "
